@@ -64,7 +64,9 @@ Systematic ==
       e \in {<<Ent(Q, <<>>), Ent(Q, OneNote(1, 64))>>, <<Ent(Q, OneNote(1, 64)), Ent(Q, <<>>)>>, <<Ent(Q, <<>>), Ent(Q, <<>>), Ent(Q, <<>>), Ent(Q, <<>>)>>,
              <<Ent(Q, <<>>), Ent(Q, OneNote(1, 64)), Ent(Q, <<>>), Ent(Q, OneNote(2, 10))>>, <<Ent(Q, OneNote(1, 64)), Ent(Q, OneNote(1, 64))>>}} \cup
   {OneBarProg(<<"C">>, <<4,4>>, <<Ent(v, OneNote(1, 64)), Ent(v, <<>>), Ent(v, OneNote(3, 20))>>, NoInstr, 1) : v \in {w \in Vocabulary : w.b >= 4}} \cup
-  {OneBarProg(<<"C">>, <<4,4>>, <<Ent(Q, OneNote(1, 64))>>, Midi(nr), 0) : nr \in 0..127}
+  {OneBarProg(<<"C">>, <<4,4>>, <<Ent(Q, OneNote(1, 64))>>, Midi(nr), 0) : nr \in 0..127} \cup
+  {[bpm |-> 120, repeat |-> 0, tracks |-> <<[name |-> [i \in 1..n |-> 65 + (i % 26)], instr |-> NoInstr,
+       bars |-> <<[key |-> <<"G">>, meter |-> <<3,4>>, entries |-> <<Ent(Q, OneNote(1, 64))>>]>>]>>] : n \in {0, 1, 126, 127, 128, 129, 200, 255, 256, 300}}
 \* ---- systematic programs for the notation exporters (C19)
 Pn(n, o) == <<[n |-> n, o |-> o, ch |-> 1, vel |-> 64]>>
 Titled(p, ti, au, su) == [bpm |-> p.bpm, repeat |-> p.repeat, tracks |-> p.tracks, title |-> ti, author |-> au, subtitle |-> su]
